@@ -407,7 +407,16 @@ def c11_battery(binary):
         for g in ("x1", "x2"):
             open(os.path.join(root, g), "wb").write(b"O" * 300)
 
+    def mk_symlinked(root):
+        # the retained sub-group of a --symbolic-links report starts with a relative symlink
+        os.makedirs(os.path.join(root, "archive"))
+        os.makedirs(os.path.join(root, "backup"))
+        open(os.path.join(root, "archive", "photo.jpg"), "wb").write(b"P" * 900)
+        os.symlink("photo.jpg", os.path.join(root, "archive", "aa_latest"))
+        open(os.path.join(root, "backup", "copy.jpg"), "wb").write(b"P" * 900)
+
     scenarios = [
+        ("a group that lists a relative symlink first (--symbolic-links)", mk_symlinked, ["-S"], [["link"], ["link", "--soft"], ["remove"]]),
         ("a retained file with a 240-byte name", mk_long, [], [["link"], ["link", "--soft"], ["remove"]]),
         ("plain", mk_plain, [], [["remove"], ["link"], ["link", "--soft"], ["remove", "--keep-name", "g1_*"], ["remove", "--keep-name", "g2_*"],
                                  ["remove", "--keep-path", "**/a/*", "--keep-path", "**/b/*", "--keep-path", "**/c/g1*"], ["remove", "-n", "2"], ["link", "--priority", "newest"]]),
@@ -610,6 +619,9 @@ def c08_battery(binary):
         check("only files matching --name may be dropped", w, ["."], ["--name", "c"], ["c"], env)
         check("n = 2 inherited from the header, report order", w, ["-n", "2", "."], [], ["c"], env)
         check("--match-links inherited: every path is a replica", w, ["--match-links", "-n", "2", "."], [], ["b", "c"], env)
+        check("-n 2 given to remove overrides the header's n = 1", w, ["."], ["-n", "2"], ["c"], env)
+        check("--rf-over 1 given to remove overrides the header's n = 2", w, ["-n", "2", "."], ["--rf-over", "1"], ["b", "c"], env)
+        check("-n 3 given to remove: nothing is redundant", w, ["."], ["-n", "3"], [], env)
         os.makedirs(os.path.join(d, "elsewhere"))
         check("hard-link set with an --isolate root that covers none of the files (n = 2 inherited)", w, ["-n", "2", "."],
               ["--isolate", os.path.join(d, "elsewhere")], ["c"], env)
@@ -627,6 +639,7 @@ def c08_battery(binary):
         check("--priority most-nested", w, ["-n", "2", "."], ["--priority", "most-nested"], ["k3"], env)
         check("--priority least-nested", w, ["-n", "2", "."], ["--priority", "least-nested"], ["k1"], env)
         check("--priority most-recently-modified, n = 1", w, ["."], ["--priority", "most-recently-modified"], ["k2", "k1"], env)
+        check("--priority most-nested with -n 2 given to remove", w, ["."], ["-n", "2", "--priority", "most-nested"], ["k3"], env)
         check("--priority least-recently-modified, n = 1", w, ["."], ["--priority", "least-recently-modified"], ["k3", "k1"], env)
         # a hard-link set with paths at different depths and a single replica in between
         w2 = os.path.join(d, "C2")
@@ -995,4 +1008,175 @@ def c18_battery(binary):
     scenario("DIR pre-populated with a file and a symlink at target paths", False, False, True)
     scenario("relative DIR, pre-populated", True, False, True)
     _memo[("c18", binary)] = devs
+    return devs
+
+
+# ------------------------------------------------------------------ C02: links of every kind in the groups, every command
+
+def c02_battery(binary):
+    """trees in which a duplicate group contains symbolic links (relative / absolute, sorted before / after their target, in the same
+    or another directory) or hard links, reported by `group` with and without --symbolic-links, processed by every dedupe command;
+    oracle = the statement of C02 read off the disk: every content still stored in a regular file, every original path of a link
+    command still reads back its bytes, moved bytes readable under the target, one replica per group untouched, bystanders untouched"""
+    if ("c02", binary) in _memo:
+        return _memo[("c02", binary)]
+    devs = []
+    DATA = b"precious-content-0123456789\n" * 20
+
+    def t_rel_first(r):
+        os.symlink("photo.jpg", os.path.join(r, "archive", "aa_latest"))
+
+    def t_rel_last(r):
+        os.symlink("photo.jpg", os.path.join(r, "archive", "zz_latest"))
+
+    def t_abs_first(r):
+        os.symlink(os.path.join(r, "archive", "photo.jpg"), os.path.join(r, "archive", "aa_abs"))
+
+    def t_rel_otherdir(r):
+        os.makedirs(os.path.join(r, "a_links"))
+        os.symlink("../archive/photo.jpg", os.path.join(r, "a_links", "shortcut"))
+
+    def t_chain(r):
+        os.symlink("photo.jpg", os.path.join(r, "archive", "ab_mid"))
+        os.symlink("ab_mid", os.path.join(r, "archive", "aa_top"))
+
+    def t_hard(r):
+        os.link(os.path.join(r, "archive", "photo.jpg"), os.path.join(r, "archive", "aa_hard"))
+
+    def t_link_to_copy(r):
+        os.symlink("../backup/copy.jpg", os.path.join(r, "archive", "aa_tocopy"))
+
+    def read(p):
+        try:
+            with open(p, "rb") as f:
+                return f.read()
+        except OSError:
+            return None
+
+    def scan(top):
+        out = {}
+        for dp, dn, fn in os.walk(top):
+            for n in fn:
+                p = os.path.join(dp, n)
+                s = os.lstat(p)
+                out[p] = (os.path.islink(p), (s.st_dev, s.st_ino), s.st_mtime_ns, read(p))
+        return out
+
+    for tname, extra in (("relative symlink sorted before its target", t_rel_first), ("relative symlink sorted after its target", t_rel_last),
+                         ("absolute symlink sorted before its target", t_abs_first), ("relative symlink in another directory", t_rel_otherdir),
+                         ("chain of two relative symlinks", t_chain), ("hard link next to the file", t_hard),
+                         ("symlink to the other replica", t_link_to_copy)):
+        for gargs in (["-S"], [], ["-S", "--hidden"]):
+            for cmd in (["link"], ["link", "--soft"], ["remove"], ["move"], ["dedupe"], ["link", "--priority", "top"], ["remove", "--priority", "bottom"]):
+                d, root = fresh("c02b.")
+                env = mkenv(d)
+                try:
+                    os.makedirs(os.path.join(root, "archive"))
+                    os.makedirs(os.path.join(root, "backup"))
+                    for rel in ("archive/photo.jpg", "backup/copy.jpg"):
+                        with open(os.path.join(root, rel), "wb") as f:
+                            f.write(DATA)
+                    with open(os.path.join(root, "backup", "bystander"), "wb") as f:
+                        f.write(DATA[:-1] + b"X")
+                    extra(root)
+                    old = time.time() - 7200
+                    for p in list(scan(root)):
+                        if not os.path.islink(p):
+                            os.utime(p, (old, old))
+                    before = scan(root)
+                    g = _run(binary, ["group"] + gargs + [root], env)
+                    if g.returncode != 0 or not g.stdout:
+                        continue
+                    tgt = os.path.join(d, "moved")
+                    argv = cmd + ([tgt] if cmd[0] == "move" else [])
+                    r = _run(binary, argv, env, stdin=g.stdout)
+                    after = scan(root)
+                    moved = scan(tgt) if os.path.isdir(tgt) else {}
+                    what = {"tree": tname, "group": gargs, "command": argv[:1] + cmd[1:]}
+                    # every content still stored in a regular file
+                    stored = {v[3] for v in list(after.values()) + list(moved.values()) if not v[0] and v[3] is not None}
+                    for p, v in before.items():
+                        if not v[0] and v[3] not in stored:
+                            devs.append(dict(what, problem="the content of %s is no longer stored in any regular file" % os.path.relpath(p, root)))
+                    # link commands: every original path reads back its bytes
+                    if cmd[0] in ("link", "dedupe"):
+                        for p, v in before.items():
+                            if read(p) != v[3]:
+                                devs.append(dict(what, problem="%s no longer reads back its bytes (now: %s)" % (
+                                    os.path.relpath(p, root), "symlink -> " + os.readlink(p) if os.path.islink(p) else ("missing" if not os.path.lexists(p) else "other bytes"))))
+                    if cmd[0] == "move":
+                        for p, v in before.items():
+                            if not os.path.lexists(p) and v[3] not in {m[3] for m in moved.values()}:
+                                devs.append(dict(what, problem="%s was moved but its bytes are not readable under the target directory" % os.path.relpath(p, root)))
+                    # one replica left completely untouched
+                    untouched = [p for p, v in before.items() if not v[0] and v[3] == DATA and p in after and after[p][:3] == v[:3]]
+                    if not untouched:
+                        devs.append(dict(what, problem="no replica of the group was left untouched"))
+                    b = os.path.join(root, "backup", "bystander")
+                    if after.get(b) != before.get(b):
+                        devs.append(dict(what, problem="a file outside the reported groups was modified"))
+                    if b"panicked" in r.stderr:
+                        devs.append(dict(what, problem="panic: " + r.stderr.decode(errors="replace").strip().splitlines()[0][:160]))
+                finally:
+                    shutil.rmtree(d, ignore_errors=True)
+                if len(devs) > 8:
+                    break
+    _memo[("c02", binary)] = devs
+    return devs
+
+
+# ------------------------------------------------------------------ C10: reports that are large or cut the look-ahead inside a character
+
+def c10_battery(binary):
+    """a report written by `group` is accepted by the dedupe commands and yields the same groups: (i) one group of 1100 files (more
+    paths than any fixed preallocation), text and JSON; (ii) reports longer than the 16 KiB look-ahead of open_report whose byte 16384
+    falls inside a multi-byte character of a file name (directory name padded byte by byte until it does)"""
+    if ("c10", binary) in _memo:
+        return _memo[("c10", binary)]
+    devs = []
+
+    def rm_lines(rep_bytes, env, cwd):
+        r = subprocess.run([binary, "remove", "--dry-run"], input=rep_bytes, stdout=subprocess.PIPE, stderr=subprocess.PIPE, env=env, cwd=cwd, timeout=300)
+        return r.returncode, len([l for l in r.stdout.splitlines() if l.startswith(b"rm ")]), r.stderr.decode(errors="replace").strip().splitlines()[-1:]
+
+    d, root = fresh("c10b.")
+    env = mkenv(d)
+    try:
+        big = os.path.join(root, "big")
+        os.makedirs(big)
+        n = 1100
+        for i in range(n):
+            with open(os.path.join(big, "f%04d" % i), "wb") as f:
+                f.write(b"same content\n")
+        for fmt in ("default", "json"):
+            g = _run(binary, ["group", "-f", fmt, big], env)
+            rc, k, last = rm_lines(g.stdout, env, root)
+            if rc != 0 or k != n - 1:
+                devs.append({"scenario": "one group of %d files, %s report" % (n, fmt), "exit": rc, "rm_commands": k, "documented": n - 1, "stderr": last})
+        shutil.rmtree(big, ignore_errors=True)
+        for pad in range(0, 4):
+            for fmt in ("default", "json"):
+                base = os.path.join(root, "p" + "x" * pad + fmt)
+                os.makedirs(base)
+                ngroups = 60
+                for i in range(ngroups):
+                    for side in ("左", "右"):
+                        with open(os.path.join(base, "文件名称测试数据%03d%s.dat" % (i, side)), "wb") as f:
+                            f.write(b"%04d" % i * 25)
+                g = _run(binary, ["group", "-f", fmt, base], env)
+                data = g.stdout
+                split = False
+                if len(data) > 16384:
+                    try:
+                        data[:16384].decode("utf-8")
+                    except UnicodeDecodeError:
+                        split = True
+                rc, k, last = rm_lines(data, env, root)
+                if rc != 0 or k != ngroups:
+                    devs.append({"scenario": "report of %d bytes, %s format, byte 16384 %s a character" % (len(data), fmt, "splits" if split else "does not split"),
+                                 "exit": rc, "rm_commands": k, "documented": ngroups, "stderr": last})
+                shutil.rmtree(base, ignore_errors=True)
+    finally:
+        shutil.rmtree(d, ignore_errors=True)
+    _memo[("c10", binary)] = devs
     return devs
